@@ -548,7 +548,7 @@ def declare_effects(e):
     reg = e.reg
     P = reg.sort(TAbs("Path"))
     PS = TSet(TAbs("Path"))
-    for g in ("fs_written", "fs_dirs", "fs_removed", "fs_written_at_unlink"):
+    for g in ("fs_written", "fs_dirs", "fs_removed", "fs_written_at_unlink", "annotate_visited"):
         e.ghost_defaults[g] = (lambda name: (lambda eng: Val(PS, z3.Const(name + "0", reg.sort(PS)))))(g)
 
     def add(eng, s, gname, path):
@@ -566,7 +566,14 @@ def declare_effects(e):
     e.method_models[("Path", "touch")] = m_effect("fs_written")
     e.method_models[("Path", "mkdir")] = m_effect("fs_dirs")
     e.method_models[("Path", "unlink")] = m_effect("fs_removed")
-    e.method_models[("Path", "write_text")] = m_effect("fs_written")
+    def m_write_text(eng, s, recv, name, args, kw, node):
+        bad = s.copy()
+        bad.trace.append("write_text:fails")
+        eng.raise_(bad, OSError, where=node)          # a failed write: no effect recorded
+        s = s.copy()
+        add(eng, s, "fs_written", recv)
+        return [(s, Val(NONE, None))]
+    e.method_models[("Path", "write_text")] = m_write_text
 
     def m_strerror(eng, s, args, kw, node):
         return [(s, eng.fresh(STR, "strerror"))]
@@ -607,3 +614,55 @@ def declare_effects(e):
     def m_outfile(eng, s, recv, name, args, kw, node):
         return [(s, Val(NONE, None))]      # fp.write(...): content is not modelled, the effect is recorded at open
     e.method_models[("OutFile", "*")] = m_outfile
+
+
+def declare_annotate(e):
+    """Models for the annotate path: comment-style lookup (abstract), output stream, templates, ReuseInfo argument."""
+    import reuse._annotate as ann
+    import reuse.comment as comment
+    reg = e.reg
+    for nm in ("Style", "OutStream"):
+        reg.declare("abs", nm)
+    reg.aliases["Template"] = TAbs("Template")
+    ST = reg.sort(TAbs("Style"))
+
+    # NAME_STYLE_MAP.get(name): an abstract lookup (the table itself is enumerated by the C07/C10 checks)
+    class StyleMap:
+        pass
+    sm = StyleMap()
+    e.const_overrides[("reuse._annotate", "NAME_STYLE_MAP")] = sm
+    e.const_overrides[("reuse.cli.annotate", "NAME_STYLE_MAP")] = sm
+
+    def stylemap_get(eng, s, base, node):
+        from pyvc.ev_call import BoundMethod
+        return [(s, py(BoundMethod(base, "get")))]
+    e.py_attr_models[(StyleMap, "get")] = stylemap_get
+
+    def m_stylemap_get(eng, s, bm, args, kw, node):
+        key = args[0]
+        f = eng.uf("ghost_style_by_name", [reg.sort(TOpt(STR))], reg.sort(TOpt(TAbs("Style"))))
+        return [(s, Val(TOpt(TAbs("Style")), f(eng.coerce(key, TOpt(STR)).t)))]
+    e.py_method_models[(StyleMap, "get")] = m_stylemap_get
+
+    # the EmptyCommentStyle class object, as a Style value
+    def style_const(eng, v, ty):
+        f = eng.uf("ghost_style_const_" + v.t.__name__, [], ST)
+        return Val(TAbs("Style"), f())
+    e.coerce_hooks[("type", "Style")] = style_const
+
+    import io
+
+    def stdout_as_stream(eng, v, ty):
+        return Val(TAbs("OutStream"), eng.uf("ghost_stdout", [], reg.sort(TAbs("OutStream")))())
+    e.coerce_hooks[("TextIOWrapper", "OutStream")] = stdout_as_stream
+    e.coerce_hooks[("EncodedFile", "OutStream")] = stdout_as_stream
+    e.coerce_hooks[("StringIO", "OutStream")] = stdout_as_stream
+
+    def gl_attr(eng, s, base, node):
+        f = eng.uf("ghost_dep5_copyright", [reg.sort(TAbs("GlobalLicensing"))], reg.sort(TAbs("Copyright")))
+        return [(s, Val(TAbs("Copyright"), f(base.t)))]
+    e.attr_models[("GlobalLicensing", "dep5_copyright")] = gl_attr
+
+    def m_out(eng, s, recv, name, args, kw, node):
+        return [(s, Val(NONE, None))]      # writes to stdout: no file-system effect
+    e.method_models[("OutStream", "*")] = m_out
